@@ -290,6 +290,14 @@ Proof.
   - cbn [fst]. apply G. cbn. lia.
 Qed.
 
+Theorem frame_save stream d : let d' := fst (save_effect stream d) in
+  d_objects d' = d_objects d /\ (d_max_id d <= d_max_id d')%N.
+Proof.
+  cbn zeta. split; [|apply (kx_save stream d)].
+  unfold save_effect. destruct (U32_MAX <=? d_max_id d)%N; [reflexivity|]. destruct (negb _); [reflexivity|].
+  destruct stream; [destruct (U32_MAX <=? d_max_id d + 1)%N|]; reflexivity.
+Qed.
+
 (* ---------- renumbering: Model/Renumber.v, facts from the C10 development ---------- *)
 Definition rdoc_of (d : doc) : rdoc := {| base := d; max_bookmark_id := 0; bookmarks := []; bm_table := [] |}.
 
